@@ -101,6 +101,27 @@ RULES = {
         replace='hoisted_extend_headers(&mut hash_data, &self.continuous_page_headers);',
         why='FlatMap has no vstd model',
         assumes='appends start_address, size, hash of every continuous page header, in order'),
+    # ---- air/layout/*/mod.rs (verify_public_input)
+    'H_flatten_main_page': dict(
+        kind='H',
+        pattern='public_input.main_page.iter().flat_map(|v| vec![v.address, v.value]).collect::<Vec<Felt>>()',
+        replace='crate::swiftness_air::layout::hoisted_flatten_page(&public_input.main_page)',
+        why='FlatMap has no vstd model', assumes='yields address_0, value_0, address_1, value_1, ... in order'),
+    'H_program_cells': dict(
+        kind='H',
+        pattern='memory.iter().skip($A).step_by(2).take($B).collect()',
+        replace='crate::swiftness_air::layout::hoisted_skip_step2_take(memory, $A, $B)',
+        why='Skip / StepBy / Take have no vstd model', assumes='yields references to memory[A], memory[A+2], ... : at most B of them, stopping at the end of the vector'),
+    'H_fold_program': dict(
+        kind='H',
+        pattern='program.iter().fold(FELT_0, |acc, &e| pedersen_hash(&acc, e))',
+        replace='crate::swiftness_air::layout::hoisted_fold_pedersen_refs(&program)',
+        why='fold has no vstd model; closure parameter pattern', assumes='left fold of pedersen_hash over the referenced elements starting from 0'),
+    'H_fold_output': dict(
+        kind='H',
+        pattern='output.iter().skip(1).step_by(2).fold(FELT_0, |acc, e| pedersen_hash(&acc, e))',
+        replace='crate::swiftness_air::layout::hoisted_fold_pedersen_odd(output)',
+        why='Skip / StepBy / fold have no vstd model', assumes='left fold of pedersen_hash over output[1], output[3], ... starting from 0'),
     # ---- stark/commit.rs
     'R1_for_underscore': dict(
         kind='R1', pattern='for _ in 0..n {', replace='for i__ in 0..n {',
